@@ -56,6 +56,13 @@ def cases(tier, seed):
             for addl in (None, "schema", True):
                 for nullable in (False, True):
                     extra.append({"kind": "shape", "typed": typed, "comp": comp, "addl": addl, "nullable": nullable})
+    # every representative document: the declared component schemas against the reference (the operations of the document are loaded too)
+    from ..space import docs as _docs
+
+    for dn in _docs.names(with_inputs=False):
+        if dn == "names":
+            continue  # schema names that collapse after derivation are C20's subject; that document exists to exercise them
+        extra.append({"kind": "doc", "doc": dn})
     return extra + graph_cases(tier, seed)
 
 
@@ -196,6 +203,13 @@ def run_other(case):
     if case["kind"] == "wide":
         doc = wide_doc(case["edge"])
         label = f"wide|{case['edge']}|170 schemas"
+    elif case["kind"] == "doc":
+        from ..space import docs as _docs
+
+        doc = _docs.get(case["doc"])
+        label = f"document|{case['doc']}"
+        if not (doc.get("components") or {}).get("schemas"):
+            return {"findings": [], "outcome": "doc:no-schemas", "nontrivial": None}
     elif case["kind"] == "shape":
         doc = shape_doc(case)
         label = f"shape|type={'object' if case['typed'] else 'absent'}|{case['comp']}|additionalProperties={case['addl']}|nullable={case['nullable']}"
@@ -205,6 +219,8 @@ def run_other(case):
     exp = refschema.expected(doc)
     found = []
     seen = set()
+    disc_props = {s_["discriminator"]["propertyName"] for s_ in ((doc.get("components") or {}).get("schemas") or {}).values()
+                  if isinstance(s_, dict) and isinstance(s_.get("discriminator"), dict) and s_["discriminator"].get("propertyName")}
 
     def cmp(level, got):
         for name, e in exp.items():
@@ -232,6 +248,8 @@ def run_other(case):
                 add("fields-lost", "model has zero fields", "no fields")
                 continue
             for clause, disc, detail in observe.diff_fields(e["fields"], g["fields"]):
+                if disc == "str->enum" and detail.split(";")[0].strip() in disc_props:
+                    continue  # the discriminator property of a variant is narrowed to the enum of the mapping's values: same wire type
                 add(clause, disc, f"{detail}; expected {e['fields']} got {g['fields']}")
 
     try:
@@ -254,7 +272,7 @@ def run_other(case):
 def run_case(case):
     import os
 
-    if case.get("kind") in ("wide", "fieldmodels", "shape"):
+    if case.get("kind") in ("wide", "fieldmodels", "shape", "doc"):
         return run_other(case)
     doc = graphs.doc_of(case)
     cyc = graphs.has_cycle(case["nodes"])
